@@ -52,6 +52,11 @@ CHECKS = {
         text="TLA+ model of the patcher's stream state machine with the save protocol, stop, crash (writes after the checkpoint wholly or partly on disk) and resume into a new patcher from any checkpoint of the lineage, model-checked over all patches of NF files from 6 series shapes with up to 2 resumes (reader/source gap and overlay sessions are model-checked in C13/C14). Over the matrix {fresh, overlay} x {plain, optimized} x {none, gzip, brotli}: an always-save real run logs every checkpoint (gob-encoded at Save) and TLC checks each against the independently decoded message table, predicts the checkpoint boundaries of the byte-granular source (drift) and checks that checkpoints keep coming; real runs are stopped at checkpoint k+lag, lose unsynced suffixes, and are resumed from the gob-decoded checkpoint k in a brand-new patcher + bowl (with further stop/resume chains); the committed tree must equal the new build.",
         note="crash model: data before a checkpoint is durable, later files keep arbitrary prefixes; no crash during Commit; SHA-256 digests stand for byte equality.",
         technique="TLA+ model checking (TLC) + trace validation of real checkpoints and real crash/resume executions against the TLA+ property"),
+    "C07": dict(
+        level="model_checking", ref="DESIGN.md §4 C07",
+        text="TLA+ model of the optimizer's target choice (reuse tally visited in any order, same-path tie rule, non-empty same-path fallback, size limits) and rewrite grammar, model-checked over all tallies; what a bsdiff series yields and how the patcher consumes both series kinds are decided by the C12 / C03 / C17 specifications. The real optimizer runs on patches of generated build pairs (incl. tiny files, files smaller than the partition count, empty/tiny old files, content mapped to a differently named file) under seeded partitions 0..16, concurrency, ForceMapAll, size limits and output compression; the optimized patch is decoded independently (control-automaton step equations + digest facts) and applied fresh and in place; TLC requires both results to equal what the original patch yields (= the new build), legal mappings, and no optimizer failure or crash.",
+        note="SHA-256 digests stand for byte equality; a crash inside an optimizer goroutine kills the driver and is reported from a marker file.",
+        technique="TLA+ model checking (TLC) + trace validation of real optimizer runs against the TLA+ patch-stream property"),
 }
 
 NOT_YET = "check not built yet in this round (planned: DESIGN.md §4); not a claim that the technique cannot apply"
